@@ -1676,6 +1676,34 @@ func (m *monitors) checkC06(snap *scheduler.VerifSnap) {
 			m.fail("C06", "lost-wakeup/terminate-workers/worker-idle", "operator %s sleeps in the select of TerminateWorkers(%s) (context not cancelled) although worker %s is not executing any task: the event that took the task off the worker did not wake the call up", a.name, f[1], f[1])
 		}
 	}
+	// "Every blocked call (..., Synchronize, ...) returns once its wake-up
+	// condition or timeout occurs": the wake-up condition of an idle
+	// Synchronize is that there is work the worker may take. At a quiescent
+	// point with the scheduler lock free everything that can run has run: a
+	// worker thread that is still durably blocked in the select of its
+	// Synchronize call (not cancelled, timer not fired) although no active
+	// drain matches it, it is not terminating, it holds no task and its size
+	// class queue has a queued operation has lost its wake-up (e.g. the drain
+	// that held it back was removed without waking it). That the idle
+	// synchronization timeout will rescue it later does not count.
+	for _, a := range m.w.actors {
+		if a.kind != "worker" || !a.inCall || a.doneCalls == 0 || a.ctx == nil || a.ctx.cancelled() || a.thread == nil {
+			continue
+		}
+		if a.timer != nil && a.timer.isFired() {
+			continue
+		}
+		if a.thread.State(m.w.x) != "native" {
+			continue
+		}
+		vw, vscq, _ := m.findWorker(snap, a.name, a.wspec.SizeClass)
+		if vw == nil || vscq == nil || vw.Drained || vw.Terminating || vw.CurrentTask >= 0 {
+			continue
+		}
+		if len(vscq.Root.QueuedOperations)+len(vscq.Root.QueuedChildren) > 0 {
+			m.fail("C06", "lost-wakeup/synchronize/undrained-with-queued-work", "worker %s sleeps in the select of Synchronize (context not cancelled, timer not fired) although it matches none of the active drains %v, is not terminating, holds no task, and its size class queue %s has queued operations: the event that made it eligible did not wake the call up", a.name, vscq.Drains, vscq.Name)
+		}
+	}
 	m.w.mu.Unlock()
 	for _, o := range snap.Operations {
 		if o.InNameMap && o.Waiters == 0 && !o.MayExistWithoutWaiters && !o.CleanupActive {
